@@ -408,6 +408,10 @@ def jobs(tier):
     js.append(Job("bankarray_b8_p2p", build_array, dict(busword=8, shared=False, K=K), cost=3))
     if tier == "thorough":
         js.append(Job("bankarray_b32_shared", build_array, dict(busword=32, shared=True, K=K), cost=3))
+    js.append(Job("csr_placement_k3", job_placement, dict(k=3, nmax=4), cost=5))
+    js.append(Job("csr_placement_k4", job_placement, dict(k=4, nmax=5), cost=30, timeout_s=3000))
+    if tier == "thorough":
+        js.append(Job("csr_placement_k5", job_placement, dict(k=5, nmax=7), cost=400, timeout_s=7000))
     return js
 
 
@@ -418,3 +422,58 @@ MANIFEST = dict(
          "bound K; register sets enumerated",
     technique="SMT bounded model checking of CSRBank/CSRStorage/CSRStatus/csr_bus.SRAM FHDL against a shadow reference model",
 )
+
+
+# --------------------------------------------------------------------------------------------------
+# placement of registers with fixed (n=) and automatic locations: the real csr._sort_gathered_items executed on symbolic location numbers
+# (Engine D: every path of the function over k items, each either automatic or pinned to a symbolic location)
+
+def job_placement(k, nmax):
+    import os
+    import z3
+    from vf import pysym
+    from vf.pysym import run_pysym, OR, AND, NOT
+    from litex.soc.interconnect import csr as csrmod
+
+    class Item:
+        def __init__(self, duid, name, fixed, n):
+            self.duid, self.name, self.fixed, self.n = duid, name, fixed, n
+
+    def body(ctx):
+        items = []
+        for i in range(k):
+            fixed = ctx.choice("fixed%d" % i, [False, True])
+            n = ctx.int("n%d" % i, 0, nmax) if fixed else None
+            items.append(Item(100 + i, "r%d" % i, fixed, n))
+        # the gatherer hands the items over in duid order; the function must not depend on it, so also try the reverse
+        order = ctx.choice("order", ["duid", "reverse"])
+        given = items if order == "duid" else list(reversed(items))
+        fixed_items = [it for it in items if it.fixed]
+        conflict = OR(*[a.n == b.n for i, a in enumerate(fixed_items) for b in fixed_items[i + 1:]]) if len(fixed_items) > 1 else False
+        try:
+            out = csrmod._sort_gathered_items(given)
+        except ValueError:
+            ctx.event("refused")
+            return dict(refused_only_on_a_real_conflict=conflict)
+        except IndexError:
+            ctx.event("crashed")
+            return dict(refused_only_on_a_real_conflict=False)
+        ctx.event("placed")
+        pos = {}
+        dup = False
+        for idx, it in enumerate(out):
+            if isinstance(it, Item):
+                if id(it) in pos:
+                    dup = True
+                pos[id(it)] = idx
+        every = all(id(it) in pos for it in items) and not dup
+        pinned = AND(*[pos[id(it)] == it.n for it in fixed_items if id(it) in pos]) if fixed_items else True
+        autos = [pos[id(it)] for it in items if not it.fixed and id(it) in pos]
+        ordered = all(a < b for a, b in zip(autos, autos[1:]))
+        filled = all(x is not None for x in out)
+        return dict(every_register_placed_exactly_once=every, pinned_registers_at_their_location=pinned, automatic_registers_in_creation_order=ordered,
+                    no_empty_location=filled, accepted_only_without_conflict=NOT(conflict))
+    checks = ["every_register_placed_exactly_once", "pinned_registers_at_their_location", "automatic_registers_in_creation_order", "no_empty_location", "accepted_only_without_conflict",
+              "refused_only_on_a_real_conflict"]
+    return run_pysym("csr_placement_k%d" % k, body, checks, required_events=["placed", "refused"], funcs=["litex.soc.interconnect.csr._sort_gathered_items"],
+                     cfg=dict(items=k, max_location=nmax), replay_dir=os.environ.get("VERIF_REPLAY_DIR") or None, max_paths=400000)
